@@ -1,1 +1,322 @@
-//! (filled in later)
+//! Compounds with stack-only element types. Encode through the real `Serializer<W>` into a stack
+//! buffer; decode through the real `Deserializer` into tuples / stack visitors (no Vec, no maps).
+
+use crate::strs::enc;
+use crate::util::*;
+use serde::de::{self, Deserializer as _, MapAccess, SeqAccess, Visitor};
+use serde::ser::{SerializeMap, SerializeSeq, Serializer as _};
+use serde::Serialize;
+use serde_amqp::de::Deserializer;
+use serde_amqp::read::SliceReader;
+use serde_amqp::ser::Serializer;
+use serde_amqp::{from_slice, serialized_size};
+use std::fmt;
+
+// @unwind 6
+// @bound tuple (u8, u16, i32) -- all values
+// @also C05,C20
+harness!(c03_rt_tuple3, |s| {
+    let x = (s.u8(), s.u16(), s.u32() as i32);
+    let w = enc::<(u8, u16, i32), 24>(&x);
+    let v = w.out();
+    let (hdr, body, count) = parse_compound(v, Some(LIST0), LIST8, LIST32).expect("[C05] not a list");
+    assert!(count == 3, "[C05] list count != number of elements");
+    assert!(v.len() == hdr + body, "[C05] list size field does not count count+items");
+    assert!(valid_fixed(&v[hdr..hdr + 2], UBYTE, &[x.0]) && valid_fixed(&v[hdr + 2..hdr + 5], USHORT, &x.1.to_be_bytes()) && valid_int(&v[hdr + 5..], x.2), "[C05] list items are not the element encodings in order");
+    assert!(serialized_size(&x).unwrap() == v.len(), "[C20] serialized_size(tuple) != encoded length");
+    let y: (u8, u16, i32) = from_slice(v).unwrap();
+    assert!(x == y, "[C03] tuple did not round-trip");
+    vcover!(s, x.2 == -1, "small negative int inside a list");
+});
+
+/// every visit_* not listed returns Ok($v): keeps serde's default `invalid_type` (Display of
+/// `Unexpected`, float formatting) out of the formula
+macro_rules! accept_rest {
+    ($val:ty, $v:expr; $($m:ident : $t:ty),* $(,)?) => {
+        $(fn $m<E: de::Error>(self, _v: $t) -> Result<$val, E> { Ok($v) })*
+    };
+}
+pub struct ElemU16;
+struct ElemU16V;
+impl<'de> Visitor<'de> for ElemU16V {
+    type Value = u16;
+    fn expecting(&self, f: &mut fmt::Formatter) -> fmt::Result {
+        f.write_str("u16")
+    }
+    fn visit_u16<E: de::Error>(self, v: u16) -> Result<u16, E> {
+        Ok(v)
+    }
+    accept_rest!(u16, 0; visit_bool: bool, visit_i8: i8, visit_i16: i16, visit_i32: i32, visit_i64: i64, visit_u8: u8, visit_u32: u32, visit_u64: u64, visit_f32: f32, visit_f64: f64, visit_char: char, visit_str: &str, visit_string: String, visit_bytes: &[u8], visit_byte_buf: Vec<u8>);
+}
+impl<'de> de::DeserializeSeed<'de> for ElemU16 {
+    type Value = u16;
+    fn deserialize<D: de::Deserializer<'de>>(self, d: D) -> Result<u16, D::Error> {
+        d.deserialize_u16(ElemU16V)
+    }
+}
+pub struct ElemU8;
+struct ElemU8V;
+impl<'de> Visitor<'de> for ElemU8V {
+    type Value = u8;
+    fn expecting(&self, f: &mut fmt::Formatter) -> fmt::Result {
+        f.write_str("u8")
+    }
+    fn visit_u8<E: de::Error>(self, v: u8) -> Result<u8, E> {
+        Ok(v)
+    }
+    accept_rest!(u8, 0; visit_bool: bool, visit_i8: i8, visit_i16: i16, visit_i32: i32, visit_i64: i64, visit_u16: u16, visit_u32: u32, visit_u64: u64, visit_f32: f32, visit_f64: f64, visit_char: char, visit_str: &str, visit_string: String, visit_bytes: &[u8], visit_byte_buf: Vec<u8>);
+}
+impl<'de> de::DeserializeSeed<'de> for ElemU8 {
+    type Value = u8;
+    fn deserialize<D: de::Deserializer<'de>>(self, d: D) -> Result<u8, D::Error> {
+        d.deserialize_u8(ElemU8V)
+    }
+}
+
+/// serde sequence of 0..=2 u16 driven through serialize_seq (what Vec<T> / slices do)
+pub struct Seq2(pub u8, pub [u16; 2]);
+impl Serialize for Seq2 {
+    fn serialize<S: serde::Serializer>(&self, se: S) -> Result<S::Ok, S::Error> {
+        let mut q = se.serialize_seq(Some(self.0 as usize))?;
+        if self.0 >= 1 {
+            q.serialize_element(&self.1[0])?;
+        }
+        if self.0 >= 2 {
+            q.serialize_element(&self.1[1])?;
+        }
+        q.end()
+    }
+}
+/// visitor collecting up to 2 u16 elements on the stack
+pub struct Collect2;
+impl<'de> Visitor<'de> for Collect2 {
+    type Value = (u8, [u16; 2]);
+    fn expecting(&self, f: &mut fmt::Formatter) -> fmt::Result {
+        f.write_str("seq of u16")
+    }
+    fn visit_seq<A: SeqAccess<'de>>(self, mut a: A) -> Result<Self::Value, A::Error> {
+        let mut out = [0u16; 2];
+        let mut n = 0u8;
+        while n < 2 {
+            match a.next_element_seed(ElemU16)? {
+                Some(v) => {
+                    out[n as usize] = v;
+                    n += 1;
+                }
+                None => return Ok((n, out)),
+            }
+        }
+        // a third element would be a count mismatch
+        match a.next_element_seed(ElemU16)? {
+            Some(_) => Ok((3, out)),
+            None => Ok((n, out)),
+        }
+    }
+}
+
+macro_rules! list_rt {
+    ($name:ident, $n:expr) => {
+        // @unwind 6
+        // @bound sequence of exactly N u16 (serialize_seq = list encoding), all element values; N concrete so that no allocation has a symbolic size
+        // @also C05,C20
+        harness!($name, |s| {
+            let n: u8 = $n;
+            let x = Seq2(n, [s.u16(), s.u16()]);
+            let w = enc::<Seq2, 24>(&x);
+            let v = w.out();
+            let (hdr, body, count) = parse_compound(v, Some(LIST0), LIST8, LIST32).expect("[C05] not a list");
+            assert!(count == n as usize && v.len() == hdr + body && body == 3 * n as usize, "[C05] list header wrong");
+            assert!(serialized_size(&x).unwrap() == v.len(), "[C20] serialized_size(list) != encoded length");
+            let mut d = Deserializer::new(SliceReader::new(v));
+            let (m, out) = (&mut d).deserialize_seq(Collect2).unwrap();
+            assert!(m == n && (n < 1 || out[0] == x.1[0]) && (n < 2 || out[1] == x.1[1]), "[C03] list did not round-trip");
+            vcover!(s, true, "reached");
+        });
+    };
+}
+list_rt!(c03_rt_list_u16_n0, 0);
+list_rt!(c03_rt_list_u16_n1, 1);
+// @tier-of c03_rt_list_u16_n2 thorough
+// @mem 40
+list_rt!(c03_rt_list_u16_n2, 2);
+
+macro_rules! array_rt {
+    ($name:ident, $n:expr) => {
+        // @unwind 6
+        // @bound Array of exactly N u16, all element values (encode through the real Array type, decode through deserialize_seq)
+        // @also C05,C20
+        harness!($name, |s| {
+            let n: u8 = $n;
+            let e = [s.u16(), s.u16()];
+            let mut vals: Vec<u16> = Vec::with_capacity(2);
+            if n >= 1 {
+                vals.push(e[0]);
+            }
+            if n >= 2 {
+                vals.push(e[1]);
+            }
+            let x = serde_amqp::primitives::Array::from(vals);
+            let w = enc::<serde_amqp::primitives::Array<u16>, 24>(&x);
+            let v = w.out();
+            assert!(v[0] == ARRAY8, "[C05] small array must be array8 (or array32)");
+            assert!(v[2] == n, "[C05] array count != number of elements");
+            assert!(v.len() == 2 + v[1] as usize, "[C05] array size field does not count count+constructor+elements");
+            if n > 0 {
+                assert!(v[3] == USHORT && v.len() == 4 + 2 * n as usize, "[C05] array must carry exactly one constructor followed by the bare elements");
+                assert!(u16::from_be_bytes([v[4], v[5]]) == e[0], "[C05] first array element misencoded");
+            }
+            assert!(serialized_size(&x).unwrap() == v.len(), "[C20] serialized_size(array) != encoded length");
+            let mut d = Deserializer::new(SliceReader::new(v));
+            let (m, out) = (&mut d).deserialize_seq(Collect2).unwrap();
+            assert!(m == n && (n < 1 || out[0] == e[0]) && (n < 2 || out[1] == e[1]), "[C03] array did not round-trip");
+            vcover!(s, true, "reached");
+            std::mem::forget(x);
+        });
+    };
+}
+array_rt!(c03_rt_array_u16_n0, 0);
+array_rt!(c03_rt_array_u16_n1, 1);
+// @tier-of c03_rt_array_u16_n2 thorough
+// @mem 40
+array_rt!(c03_rt_array_u16_n2, 2);
+
+/// map of 0..=2 (u8 -> u16) entries through serialize_map
+pub struct Map2(pub u8, pub [(u8, u16); 2]);
+impl Serialize for Map2 {
+    fn serialize<S: serde::Serializer>(&self, se: S) -> Result<S::Ok, S::Error> {
+        let mut q = se.serialize_map(Some(self.0 as usize))?;
+        if self.0 >= 1 {
+            q.serialize_entry(&self.1[0].0, &self.1[0].1)?;
+        }
+        if self.0 >= 2 {
+            q.serialize_entry(&self.1[1].0, &self.1[1].1)?;
+        }
+        q.end()
+    }
+}
+pub struct CollectMap2;
+impl<'de> Visitor<'de> for CollectMap2 {
+    type Value = (u8, [(u8, u16); 2]);
+    fn expecting(&self, f: &mut fmt::Formatter) -> fmt::Result {
+        f.write_str("map u8 -> u16")
+    }
+    fn visit_map<A: MapAccess<'de>>(self, mut a: A) -> Result<Self::Value, A::Error> {
+        let mut out = [(0u8, 0u16); 2];
+        let mut n = 0u8;
+        while n < 2 {
+            match a.next_entry_seed(ElemU8, ElemU16)? {
+                Some(e) => {
+                    out[n as usize] = e;
+                    n += 1;
+                }
+                None => return Ok((n, out)),
+            }
+        }
+        match a.next_entry_seed(ElemU8, ElemU16)? {
+            Some(_) => Ok((3, out)),
+            None => Ok((n, out)),
+        }
+    }
+}
+
+macro_rules! map_rt {
+    ($name:ident, $n:expr) => {
+        // @unwind 6
+        // @bound map of exactly N entries u8 -> u16, all values
+        // @also C05,C20
+        harness!($name, |s| {
+            let n: u8 = $n;
+            let x = Map2(n, [(s.u8(), s.u16()), (s.u8(), s.u16())]);
+            let w = enc::<Map2, 24>(&x);
+            let v = w.out();
+            let (hdr, body, count) = parse_compound(v, None, MAP8, MAP32).expect("[C05] not a map");
+            assert!(count == 2 * n as usize, "[C05] map count must be twice the number of entries");
+            assert!(v.len() == hdr + body && body == 5 * n as usize, "[C05] map size field wrong");
+            assert!(serialized_size(&x).unwrap() == v.len(), "[C20] serialized_size(map) != encoded length");
+            let mut d = Deserializer::new(SliceReader::new(v));
+            let (m, out) = (&mut d).deserialize_map(CollectMap2).unwrap();
+            assert!(m == n && (n < 1 || out[0] == x.1[0]) && (n < 2 || out[1] == x.1[1]), "[C03] map did not round-trip");
+            vcover!(s, true, "reached");
+        });
+    };
+}
+map_rt!(c03_rt_map_n0, 0);
+map_rt!(c03_rt_map_n1, 1);
+// @tier-of c03_rt_map_n2 thorough
+// @mem 40
+map_rt!(c03_rt_map_n2, 2);
+
+// @unwind 6
+// @bound all spec width variants (list8/list32, array8/array32, map8/map32, list0) of small compounds with symbolic elements
+harness!(c05_dec_compound_variants, |s| {
+    let a = s.u8();
+    let b = s.u16().to_be_bytes();
+    let want = (a, u16::from_be_bytes(b));
+    let l8 = [LIST8, 6, 2, UBYTE, a, USHORT, b[0], b[1]];
+    let l32 = [LIST32, 0, 0, 0, 9, 0, 0, 0, 2, UBYTE, a, USHORT, b[0], b[1]];
+    assert!(from_slice::<(u8, u16)>(&l8).unwrap() == want, "[C05] list8 variant rejected or misread");
+    assert!(from_slice::<(u8, u16)>(&l32).unwrap() == want, "[C05] list32 variant rejected or misread");
+    let e = u16::from_be_bytes(b);
+    let a8 = [ARRAY8, 4, 1, USHORT, b[0], b[1]];
+    let a32 = [ARRAY32, 0, 0, 0, 7, 0, 0, 0, 1, USHORT, b[0], b[1]];
+    let mut d = Deserializer::new(SliceReader::new(&a8));
+    let r8 = (&mut d).deserialize_seq(Collect2).unwrap();
+    let mut d = Deserializer::new(SliceReader::new(&a32));
+    let r32 = (&mut d).deserialize_seq(Collect2).unwrap();
+    assert!(r8.0 == 1 && r8.1[0] == e && r32.0 == 1 && r32.1[0] == e, "[C05] array8/array32 variant rejected or misread");
+    let m8 = [MAP8, 6, 2, UBYTE, a, USHORT, b[0], b[1]];
+    let m32 = [MAP32, 0, 0, 0, 9, 0, 0, 0, 2, UBYTE, a, USHORT, b[0], b[1]];
+    let mut d = Deserializer::new(SliceReader::new(&m8));
+    let q8 = (&mut d).deserialize_map(CollectMap2).unwrap();
+    let mut d = Deserializer::new(SliceReader::new(&m32));
+    let q32 = (&mut d).deserialize_map(CollectMap2).unwrap();
+    assert!(q8.0 == 1 && q8.1[0] == (a, e) && q32.0 == 1 && q32.1[0] == (a, e), "[C05] map8/map32 variant rejected or misread");
+    let l0 = [LIST0];
+    let mut d = Deserializer::new(SliceReader::new(&l0));
+    let z = (&mut d).deserialize_seq(Collect2).unwrap();
+    assert!(z.0 == 0, "[C05] list0 rejected or misread");
+    vcover!(s, true, "variants reached");
+});
+
+// ---- small real composites (derive-generated Serialize) ----
+use fe2o3_amqp_types::messaging::{Accepted, Received, Released};
+
+// @unwind 6
+// @bound Received { section_number: u32, section_offset: u64 } -- all values; Accepted; Released
+// @also C20
+harness!(c05_enc_composites, |s| {
+    let r = Received { section_number: s.u32(), section_offset: s.u64() };
+    let w = enc::<Received, 40>(&r);
+    let v = w.out();
+    // described: 0x00, descriptor (ulong 0x23, any width variant), then a list of two fields
+    assert!(v[0] == DESCRIBED, "[C05] composite must start with the described-type constructor");
+    let dlen = if v[1] == SMALLULONG { 2 } else if v[1] == ULONG { 9 } else { 0 };
+    assert!(dlen != 0 && valid_ulong(&v[1..1 + dlen], 0x23), "[C05] received descriptor is not ulong 0x23");
+    let body = &v[1 + dlen..];
+    let (hdr, blen, count) = parse_compound(body, Some(LIST0), LIST8, LIST32).expect("[C05] composite body is not a list");
+    assert!(count == 2 && body.len() == hdr + blen, "[C05] composite list header wrong");
+    let f = &body[hdr..];
+    let l1 = if f[0] == UINT0 { 1 } else if f[0] == SMALLUINT { 2 } else { 5 };
+    assert!(valid_uint(&f[..l1], r.section_number) && valid_ulong(&f[l1..], r.section_offset), "[C05] composite fields are not the field encodings in order");
+    assert!(serialized_size(&r).unwrap() == v.len(), "[C20] serialized_size(composite) != encoded length");
+    let wa = enc::<Accepted, 16>(&Accepted {});
+    let a = wa.out();
+    assert!(a[0] == DESCRIBED && valid_ulong(&a[1..a.len() - 1], 0x24) && a[a.len() - 1] == LIST0, "[C05] accepted is not described(0x24) list0");
+    let wr = enc::<Released, 16>(&Released {});
+    let rl = wr.out();
+    assert!(rl[0] == DESCRIBED && valid_ulong(&rl[1..rl.len() - 1], 0x26) && rl[rl.len() - 1] == LIST0, "[C05] released is not described(0x26) list0");
+    vcover!(s, r.section_number == 0 && r.section_offset > 255, "mixed width fields");
+});
+
+// @tier thorough
+// @timeout 2400
+// @mem 30
+// @unwind 6
+// @bound Received with symbolic fields: encode then decode through the derive-generated Deserialize
+harness!(c03_rt_received, |s| {
+    let r = Received { section_number: s.u32(), section_offset: s.u64() };
+    let w = enc::<Received, 40>(&r);
+    let y: Received = from_slice(w.out()).unwrap();
+    assert!(y.section_number == r.section_number && y.section_offset == r.section_offset, "[C03] received did not round-trip");
+    vcover!(s, true, "reached");
+});
